@@ -83,7 +83,7 @@ func (propC20) ID() string      { return "C20" }
 func (propC20) Modes() []string { return []string{"mock"} }
 
 func (propC20) Draw(rt *rapid.T, w *WorldDesc, mode string) *Plan {
-	p := &Plan{}
+	p := &Plan{Race: true}
 	methods := w.AllMethods()
 	p.MockInts = rapid.SliceOfN(rapid.IntRange(0, 1000), 1, 24).Draw(rt, "mockInts")
 	p.MockCryptoFail = rapid.IntRange(0, 4).Draw(rt, "cryptoFail") == 0
@@ -127,6 +127,19 @@ func exampleViolation(w *WorldDesc, m protoreflect.Message, depth int) string {
 		if fd.Kind() == protoreflect.MessageKind && !fd.IsList() && !fd.IsMap() && m.Has(fd) {
 			if v := exampleViolation(w, m.Get(fd).Message(), depth+1); v != "" {
 				return v
+			}
+			continue
+		}
+		if fd.IsMap() && fd.MapValue().Kind() == protoreflect.MessageKind {
+			bad := ""
+			m.Get(fd).Map().Range(func(_ protoreflect.MapKey, mv protoreflect.Value) bool {
+				if v := exampleViolation(w, mv.Message(), depth+1); v != "" && bad == "" {
+					bad = v
+				}
+				return true
+			})
+			if bad != "" {
+				return bad
 			}
 			continue
 		}
@@ -182,6 +195,11 @@ func exampleMember(fd protoreflect.FieldDescriptor, v protoreflect.Value, sf *sp
 }
 
 func (propC20) Check(k *Kernel, cov *Coverage) *Violation {
+	if k.Race != nil && len(k.Race.Reports) > 0 {
+		r := k.Race.Reports[0]
+		return &Violation{Class: "mock-data-race", Signature: "C20|mock-data-race|" + r.Kind + "|" + siteFile(r.First),
+			Detail: fmt.Sprintf("concurrent mock RPCs: unordered conflicting accesses (%s) at %s and %s", r.Kind, r.First, r.Second)}
+	}
 	for _, c := range k.Calls {
 		rpc := k.W.RPC(c.Op.RPC)
 		ct := effectiveCT(k.Plan, c.Op)
